@@ -23,6 +23,11 @@ CONSTRUCTS = {
  'let_let': "let\n  a = 1;\nin\nlet\n  b = 2;\nin\na", 'let_let_let': "let\n  a = 1;\nin\nlet\n  b = 2;\nin\nlet\n  c = 3;\nin\n{\n  d = a;\n}",
  'let_empty': "let in x", 'let_empty_set': "let\nin\n{\n  a = 1;\n}", 'mixed_attrpath': "{\n  a.b = 1;\n  a = {\n    c = 2;\n  };\n}",
  'mixed_attrpath_rev': "{\n  a = {\n    c = 2;\n  };\n  a.b = 1;\n}", 'dup_sets': "{\n  a = {\n    b = 1;\n  };\n  a = {\n    c = 2;\n  };\n}",
+ 'let_import': "let\n  a = 1;\nin\nimport ./x.nix", 'let_let_import': "let\n  a = 1;\nin\nlet\n  b = 2;\nin\nimport ./x.nix", 'let_attrpath_import': "let\n  a.b = 1;\n  x = 2;\n  a.c = 3;\nin\nimport ./x.nix",
+ 'let_let_call': "let\n  a = 1;\nin\nlet\n  b = 2;\nin\nf a b", 'let_let_set': "let\n  a = 1;\nin\nlet\n  b = 2;\nin\n{\n  c = a;\n}", 'let_let_list': "let\n  a = 1;\nin\nlet\n  b = 2;\nin\n[\n  a\n  b\n]",
+ 'let_let_with': "let\n  a = 1;\nin\nlet\n  b = 2;\nin\nwith a;\nb", 'let_let_if': "let\n  a = 1;\nin\nlet\n  b = 2;\nin\nif a then b else a", 'let_let_lambda': "let\n  a = 1;\nin\nlet\n  b = 2;\nin\nx: a",
+ 'let_let_select': "let\n  a = 1;\nin\nlet\n  b = 2;\nin\na.b.c", 'let_let_binary': "let\n  a = 1;\nin\nlet\n  b = 2;\nin\na + b", 'let_let_paren': "let\n  a = 1;\nin\nlet\n  b = 2;\nin\n(a)",
+ 'let_let_assert': "let\n  a = 1;\nin\nlet\n  b = 2;\nin\nassert a;\nb", 'let_let_string': "let\n  a = 1;\nin\nlet\n  b = 2;\nin\n\"s\"",
  'empty_list': "[ ]", 'empty_set': "{ }", 'empty_rec_set': "rec { }", 'empty_list_call': "f [ ] { }",
  'attrpath_quoted': "{\n  \"a\".b.\"c d\".e = 1;\n}", 'attrpath_interp': "{\n  ${x}.b.\"${y}\".c = 1;\n}",
  'dup_attrpath_sets': "{\n  a.b = {\n    x = 1;\n  };\n  a.b = {\n    y = 2;\n  };\n}", 'dup_attrpath_sets_apart': "{\n  s.n = {\n    e = true;\n  };\n  z = 1;\n  s.n = {\n    u = 2;\n  };\n}",
@@ -46,7 +51,7 @@ CONTEXTS = {'lambda_body': lambda e: 'x:\n' + e, 'top': lambda e: e, 'lead_ws': 
             'bindval': lambda e: "{\n  v = " + e.replace("\n", "\n  ") + ";\n}", 'listitem': lambda e: "[\n  " + e.replace("\n", "\n  ") + "\n]",
             # seventh round: multi-byte characters before the construct (a reader that mixes byte offsets and character indices reads every later gap shifted)
             'utf8_lead': lambda e: "{\n  s = \"€😀é\";\n  v = " + e.replace("\n", "\n  ") + ";\n}"}
-NOT_LIST_ITEMS = ('empty_list_call', 'import', 'import_call', 'import_nl', 'import_paren', 'let_let', 'let_let_let', 'let_empty', 'let_empty_set', 'empty_formals', 'empty_formals_at', 'formals_ellipsis_only', 'with_list', 'with_set', 'with_istr', 'with_paren', 'with_call', 'with_multi_list', 'assert_list', 'assert_set', 'lambda_list', 'lambda_set', 'lambda_formals_set', 'let_set', 'let_list', 'if_set', 'call_list', 'call_istr', 'concat_list', 'update_set', 'formal_default_list', 'formal_default_multi', 'not_paren', 'inherit_in_let', 'if_multi', 'if_chain', 'with_multi', 'assert_multi', 'lambda_nl', 'call_multi', 'binary_multi', 'call', 'with', 'assert', 'if', 'lambda_id', 'lambda_formals', 'lambda_formals_multi', 'lambda_at', 'lambda_at_pre', 'let', 'binary', 'chain', 'update', 'has_attr', 'not', 'neg', 'select_or', 'call_set')
+NOT_LIST_ITEMS = ('let_import', 'let_let_import', 'let_attrpath_import', 'let_let_call', 'let_let_set', 'let_let_list', 'let_let_with', 'let_let_if', 'let_let_lambda', 'let_let_select', 'let_let_binary', 'let_let_paren', 'let_let_assert', 'let_let_string', 'empty_list_call', 'import', 'import_call', 'import_nl', 'import_paren', 'let_let', 'let_let_let', 'let_empty', 'let_empty_set', 'empty_formals', 'empty_formals_at', 'formals_ellipsis_only', 'with_list', 'with_set', 'with_istr', 'with_paren', 'with_call', 'with_multi_list', 'assert_list', 'assert_set', 'lambda_list', 'lambda_set', 'lambda_formals_set', 'let_set', 'let_list', 'if_set', 'call_list', 'call_istr', 'concat_list', 'update_set', 'formal_default_list', 'formal_default_multi', 'not_paren', 'inherit_in_let', 'if_multi', 'if_chain', 'with_multi', 'assert_multi', 'lambda_nl', 'call_multi', 'binary_multi', 'call', 'with', 'assert', 'if', 'lambda_id', 'lambda_formals', 'lambda_formals_multi', 'lambda_at', 'lambda_at_pre', 'let', 'binary', 'chain', 'update', 'has_attr', 'not', 'neg', 'select_or', 'call_set')
 # ---- nesting family: every sequence of up to three wrappers around a leaf, each wrapper with names of its own depth ----
 WRAP = {
  'let': lambda i, e: 'let\n  v%d = %d;\nin\n%s' % (i, i, e), 'lam': lambda i, e: 'x%d: %s' % (i, e), 'formals': lambda i, e: '{ p%d }: %s' % (i, e),
@@ -79,6 +84,11 @@ def _lets(n, body, comments=False):
         t = 'let\n' + ('  # layer %d\n' % i if comments else '') + '  v%d = %d;\nin\n' % (i, i) + t
     return t
 CANON_DOCS = {
+ # ninth round: blocks of two and three own-line comments in every position that takes one (a gap measured to the wrong neighbour adds or drops a blank line)
+ 'cblock_after_lambda_head': '{ lib, buildGoModule }:\n# first\n# second\n# third\nbuildGoModule {\n  pname = "x";\n}', 'cblock_after_in': 'let\n  a = 1;\nin\n# one\n# two\n# three\na',
+ 'cblock_in_set': '{\n  # one\n  # two\n  # three\n  a = 1;\n  # four\n  # five\n  b = 2;\n  # six\n  # seven\n}', 'cblock_in_list': '[\n  # one\n  # two\n  1\n  # three\n  # four\n]',
+ 'cblock_in_let': 'let\n  # one\n  # two\n  a = 1;\n  # three\n  # four\nin\na', 'cblock_top': '# one\n# two\n# three\n{\n  a = 1;\n}', 'cblock_after_id_lambda': 'x:\n# one\n# two\nx',
+ 'cblock_pkg': '{\n  stdenv,\n  fetchurl,\n  ...\n}:\n# maintainers: see below\n# second line\nstdenv.mkDerivation rec {\n  pname = "x";\n  # a\n  # b\n  version = "1";\n}',
  'lets3': _lets(3, 'v1 + v2 + v3'), 'lets4': _lets(4, '{\n  a = v1;\n}'), 'lets5_comments': _lets(5, '[\n  v1\n  v5\n]', True),
  'pkg_lets3': '# header\n{ lib, stdenv }:\n' + _lets(3, 'stdenv.mkDerivation {\n  pname = "x";\n  version = "1";\n}', True),
  'lets_blank_between': 'let\n  a = 1;\nin\n\nlet\n  b = 2;\nin\na', 'lets_comment_between': 'let\n  a = 1;\nin\n# helpers\nlet\n  b = 2;\nin\n{\n  c = a;\n}',
